@@ -33,7 +33,7 @@ def self_test(ctx: Ctx):
 def run(ctx: Ctx):
     quick = ctx.tier == "quick"
     ctx.rule = ("centre of mass: sizes (nx, ny) in 3..9 (odd/even mixes) x fftshift {T, F} x units {1/A, mrad} x eager/lazy, one member per "
-                "pixel position of each axis + one random normalised pattern; integrated gradient: sizes x samplings x Fourier modes; "
+                "pixel position of each axis + one random normalised pattern; integrated gradient: sizes x samplings x Fourier modes x eager / lazy in one block / lazy chunked along x, y or both base axes; "
                 "non-trivial = every case")
     ctx.design_check("PatternModel", cfg_text=CFG.format(n=9 if quick else 14), label="PatternModel=>Pattern", workers=1, timeout=3000)
     self_test(ctx)
@@ -49,8 +49,10 @@ def run(ctx: Ctx):
     for n in [(8, 8), (9, 7), (12, 10)] if quick else [(a, b) for a in (6, 7, 8, 9, 12) for b in (6, 7, 10)]:
         for mode in ((1, 0), (0, 1), (1, 1), (2, -1)):
             for samp in ((0.1, 0.1), (0.2, 0.15)):
-                evs.append(gradient_event(n, mode, samp, lazy=(mode == (1, 1))))
-                ctx.case(("gradient", n, mode, samp))
+                lazy = {(1, 0): False, (0, 1): "x_chunks", (1, 1): "whole", (2, -1): "xy_chunks"}[mode] if samp[0] == samp[1] else \
+                    {(1, 0): "y_chunks", (0, 1): False, (1, 1): "x_chunks", (2, -1): "whole"}[mode]
+                evs.append(gradient_event(n, mode, samp, lazy=lazy))
+                ctx.case(("gradient", n, mode, samp, lazy))
     ctx.exhaustive = not quick
     for e in evs[:1] + evs[-1:]:
         ctx.sample(e)
